@@ -198,10 +198,23 @@ ENGINES = {
     "codec": (["vf/engines/codec.cc"], False, False, True, True),
     "fault": (["vf/engines/fault.cc", "vf/vfsched.cc", "vf/vfio.cc"], True, True, True, False),
     "conc": (["vf/engines/conc.cc", "vf/vfsched.cc", "vf/vfio.cc"], True, True, True, False),
+    "race": (["vf/engines/race.cc", "vf/vfsched.cc", "vf/vfio.cc"], True, True, True, False),
+    "corrupt": (["vf/engines/corrupt.cc", "vf/vfsched.cc", "vf/vfio.cc"], True, True, True, False),
 }
 
 
+def build_fuzz(flavour):
+    """libFuzzer binary with all C18 targets (selected at run time by VF_FUZZ_TARGET)."""
+    t0 = time.time()
+    lib = build_lib(flavour)
+    objs = build_cxx(flavour, ["vf/fuzz/fuzz.cc"], internal_headers=True)
+    exe = link(flavour, "fuzz", objs + lib, wrap_io=False, wrap_pt=False, libs=())
+    return exe, time.time() - t0
+
+
 def build_engine(name, flavour):
+    if name == "fuzz":
+        return build_fuzz(flavour)
     srcs, wio, wpt, needs_gen, internal = ENGINES[name]
     t0 = time.time()
     lib = build_lib(flavour)
